@@ -158,8 +158,11 @@ func runC02(r *Run) {
 		ws = append(ws, w)
 	}
 	nPing := t.Draw(3)
-	closeCode := []int{1000, 1001, 1008, 3000, 4999, 1005}[t.Draw(6)]
-	reasonLen := []int{0, 5, 123}[t.Draw(3)]
+	// (codes the library may not send and reasons that do not fit are part of
+	// "any sequence of API calls": whatever Close does with them, the Close frame
+	// it emits must be sendable)
+	closeCode := []int{1000, 1001, 1008, 3000, 4999, 1005, 1006, 1015, 999, 5000, 0, 1016, 2999}[t.Weighted(4, 3, 3, 3, 3, 3, 1, 1, 1, 1, 1, 1, 1)]
+	reasonLen := []int{0, 5, 123, 122, 124, 125, 126, 127, 300, 70000}[t.Weighted(4, 4, 4, 2, 3, 3, 2, 1, 1, 1)]
 	earlyClose := t.Pct(30)
 	closeAfter := t.Draw(6)
 	r.DrawNetKnobs(vol, rc.Lib.Out())
@@ -275,8 +278,12 @@ func runC02(r *Run) {
 		if closeCode == 1005 {
 			reason = "" // the no-status code is sent as an empty payload
 		}
-		if c0.Code != closeCode || c0.Reason != reason {
+		sendable := wsref.ValidWireCode(closeCode) && reasonLen <= 123 || closeCode == 1005
+		if sendable && (c0.Code != closeCode || c0.Reason != reason) {
 			r.Violate("close-payload", sig, "Close(%d,%dB reason) emitted as (%d,%q)", closeCode, reasonLen, c0.Code, c0.Reason)
+		}
+		if !sendable {
+			r.S.Count("probe.close-with-unsendable-arguments")
 		}
 	} else if closeErr == nil {
 		r.Violate("close-missing", sig, "Close returned nil but no Close frame was emitted")
